@@ -54,6 +54,22 @@ class C03(RecorderProp):
                 if kw:
                     st['kw'] = kw
                 script.append(st)
+        share = False
+        if rng.random() < 0.12:
+            # one object passed twice in one output call (`send(report, fallback=report)`): the recorded entry and the captured
+            # entry both show it twice (plain attributes only: an object holding a container before a shared reference is K7)
+            cands = [st for st in script if sites[st['s']]['kind'] == 'out' and
+                     (sites[st['s']]['nargs'] >= 2 or (sites[st['s']]['nargs'] >= 1 and sites[st['s']]['kwnames']))]
+            if cands:
+                st = rng.choice(cands)
+                obj = {'o': [['name', {'s': rng.choice(['n', 'report'])}], ['x', {'i': str(rng.randint(0, 9))}]]}
+                script.insert(script.index(st), {'op': 'let', 'x': 'sh', 'e': const(obj)})
+                st['args'][0] = {'v': 'sh'}
+                if sites[st['s']]['nargs'] >= 2:
+                    st['args'][1] = {'v': 'sh'}
+                else:
+                    st['kw'] = [[sites[st['s']]['kwnames'][0], {'v': 'sh'}]]
+                share = True
         final = {'op': 'ret', 'e': const(rand_value(rng, 1))} if rng.random() < 0.8 else {'op': 'raise', 't': rng.choice(RAISED)}
         script.append(final)
         edited = self.edit(rng, copy.deepcopy(script), sites)
@@ -67,13 +83,29 @@ class C03(RecorderProp):
             aborted = copy.deepcopy(outs) + [{'op': 'call', 's': 'missing', 'x': 'm', 'args': []}, {'op': 'reraise', 'x': 'm'},
                                              {'op': 'ret', 'e': const(None)}]
             runs.append({'run': 'play', 'cls': 'OpA', 'rec': 0, 'enabled': False, 'script': aborted, 'clock': [3, 3, 3]})
+        if rng.random() < 0.3:
+            # an earlier complete replay of the recorded program: what it captured must still read the same after the next one
+            runs.append({'run': 'play', 'cls': 'OpA', 'rec': 0, 'enabled': False, 'script': copy.deepcopy(script), 'clock': [4, 4, 4]})
         runs.append({'run': 'play', 'cls': 'OpA', 'rec': 0, 'enabled': rng.random() < 0.5, 'script': edited, 'clock': [5, 6, 7]})
+        if share:
+            # no OTHER object in this history: an object whose state holds a container, written before a shared reference,
+            # shifts the serializer's reference numbers (known finding K7, reported under C01/C07)
+            from harness.rvals import no_objects
+            case = no_objects({'share': True, 'cassette': rng.choice(['memory', 'memory', 'file', 's3']),
+                               'classes': {'OpA': {'params': None, 'classLevel': rng.random() < 0.2, 'hasExtractor': False}},
+                               'sites': sites, 'runs': runs})
+            for run in case['runs']:
+                for st in run['script']:
+                    if st.get('op') == 'let' and st.get('x') == 'sh':
+                        st['e'] = const(obj)
+            return case
         return {'cassette': rng.choice(['memory', 'memory', 'file', 's3']),
                 'classes': {'OpA': {'params': None, 'classLevel': rng.random() < 0.2, 'hasExtractor': False}},
                 'sites': sites, 'runs': runs}
 
     def edit(self, rng, script, sites):
-        outs = [i for i, st in enumerate(script[:-1]) if st['op'] == 'call' and sites[st['s']]['kind'] == 'out']
+        outs = [i for i, st in enumerate(script[:-1]) if st['op'] == 'call' and sites[st['s']]['kind'] == 'out'
+                and not any('v' in a for a in st.get('args', []))]
         kind = rng.choice(['same', 'arg', 'drop', 'add', 'swap', 'final', 'raise'])
         if kind == 'arg' and outs:
             i = rng.choice(outs)
@@ -140,6 +172,10 @@ class C03(RecorderProp):
 
     def oracle(self, case, impl):
         fails = []
+        for i, r in enumerate(impl):
+            if '_result_at_end' in r and r['_result_at_end'] != r['result']:
+                fails.append('run %d: the outputs captured by this replay changed when a later replay happened: they were %r, at '
+                             'the end they read %r' % (i, r['result'], r['_result_at_end']))
         rec_run, play_run = case['runs'][0], case['runs'][-1]
         r = impl[-1]
         if r['result'][0] != 'played':
